@@ -172,6 +172,57 @@ func pScenarios() []pScenario {
 		}})
 	}
 
+	// TimeoutLimit with a barging third party: the holder returns early, somebody else may
+	// take the slot before the woken waiter does; the waiter must then keep waiting for what
+	// is left of its timeout and never report a timeout early (late is a matter of scheduling)
+	for _, at := range []time.Duration{20 * time.Millisecond, 40 * time.Millisecond, 70 * time.Millisecond} {
+		at := at
+		out = append(out, pScenario{name: fmt.Sprintf("timeoutlimit/barger/return-at=%v", at), collide: true, run: func(r *vrt.Run) {
+			l := NewTimeoutLimit(1)
+			if !l.TryBorrow() {
+				r.Failf("first TryBorrow failed")
+			}
+			var wg sync.WaitGroup
+			wg.Add(3)
+			barged := false
+			go func() {
+				defer wg.Done()
+				start := vrt.Elapsed()
+				err := l.Borrow(100 * time.Millisecond)
+				el := vrt.Elapsed() - start
+				r.Outcome("borrow=%v after %v", err, el)
+				if err == ErrTimeout && el < 100*time.Millisecond {
+					r.Failf("ErrTimeout after only %v of a 100ms timeout", el)
+				}
+				if err != nil && err != ErrTimeout {
+					r.Failf("unexpected error %v", err)
+				}
+				vrt.Obs()
+				if err == nil && barged {
+					r.Failf("limit of 1 lent twice (waiter and barger both hold it)")
+				}
+			}()
+			go func() {
+				defer wg.Done()
+				vrt.Advance(at)
+				if err := l.Return(); err != nil {
+					r.Failf("Return: %v", err)
+				}
+				for el := at; el < 130*time.Millisecond; el += 10 * time.Millisecond {
+					vrt.Advance(10 * time.Millisecond)
+				}
+			}()
+			go func() {
+				defer wg.Done()
+				vrt.Sleep(at)
+				ok := l.TryBorrow()
+				vrt.Obs()
+				barged = ok
+			}()
+			wg.Wait()
+		}})
+	}
+
 	// Pool
 	add("pool/limit=1/2users", func(r *vrt.Run) {
 		created, destroyed := 0, 0
